@@ -21,7 +21,7 @@ RULE = ("two focus alphabets (short-form disambiguation: 10 kinds; id./placehold
 ASSUMPTIONS = ["independent key of a case citation = (volume, page, guessed-edition-or-written reporter); "
                "law/journal = all groups + candidate editions (anchors: ResourceCitation.__hash__)",
                "exhaustive for the stated alphabet and bound only"]
-FLOORS = {"quick": {"sequences": R.n_sequences(3), "focus_sequences": R.n_focus_sequences(3), "extracted_lists": 500, "full_pairs_compared": 5000, "member_pair_lists": 500},
+FLOORS = {"quick": {"sequences": R.n_sequences(3), "focus_sequences": R.n_focus_sequences(3), "extracted_lists": 500, "full_pairs_compared": 5000, "member_pair_lists": 500, "hostile_member_pairs": 100, "dated_pairs": 100},
           "thorough": {"sequences": R.n_sequences(5), "focus_sequences": R.n_focus_sequences(5), "extracted_lists": 30000, "full_pairs_compared": 2000000}}
 
 
@@ -105,6 +105,12 @@ def run_shard(spec, rec):
                 cores.append(c0)
             if len(cores) == 2:
                 break
+        if rng.random() < 0.3:
+            # two members that differ only in non-ASCII characters of the volume or page group
+            hp = gen.hostile_pair(rng)
+            if hp:
+                cores = list(hp)
+                rec.count("hostile_member_pairs")
         if not cores:
             continue
         texts = [f"Alphaxo v. Betaxo, {cores[0]} (1999).", f"See {cores[0]}, at 5.", f"Gammaxo v. Deltaxo, {cores[-1]}."]
@@ -119,6 +125,7 @@ def run_shard(spec, rec):
         if len(seq) >= 2 and check_seq(seq, dict(member_texts=texts), rec, resolve_citations) is not None:
             rec.count("member_pair_lists")
             rec.nontrivial(texts)
+    dated_pairs(spec, rec, rng, resolve_citations)
     # lists extracted from documents
     for k in range(spec["ndoc"]):
         text = R.resolution_doc(rng) if k % 3 else gen.dense_doc(rng, hostile=0.2)
@@ -132,6 +139,81 @@ def run_shard(spec, rec):
                 rec.nontrivial(text)
             if len(rec.samples) < 4 and len(cs) > 4:
                 rec.sample(dict(text=text, kinds=[M.kind(c) for c in cs]))
+
+
+_DATED = None
+
+
+def dated_variations():
+    """(variation, [(edition name, first year, last year)]) for reporter strings that the database lists as
+    a variation of several editions - read from reporters-db, not from the library's lookup tables."""
+    global _DATED
+    if _DATED is None:
+        from reporters_db import REPORTERS
+        out = []
+        for v, rel in sorted(gen.DB.related.items()):
+            # an edition's own name is never a mere variation (exact-name candidates take precedence)
+            if len(rel) < 2 or any(en == v for _, _, en in rel):
+                continue
+            eds = []
+            for key, ci, en in sorted(rel):
+                ed = REPORTERS[key][ci]["editions"].get(en)
+                if not ed:
+                    break
+                eds.append((en, ed["start"].year if ed.get("start") else None, ed["end"].year if ed.get("end") else None))
+            else:
+                if len({e[0] for e in eds}) == len(eds):
+                    out.append((v, eds))
+        _DATED = out
+    return _DATED
+
+
+def dated_pairs(spec, rec, rng, resolve):
+    """An ambiguous variation written with a year in which exactly one of its editions was published is that
+    edition: it shares a resource with the edition's own name (same volume and page) and with no other
+    edition. Years at the first and last year of each edition's range."""
+    from eyecite import get_citations
+    from eyecite.models import FullCaseCitation
+    from vmon.props.c05 import plain_shape_only
+    for n, (v, eds) in enumerate(dated_variations()):
+        if n % spec["nshards"] != spec["i"] or not plain_shape_only(v):
+            continue
+        for en, first, last in eds:
+            for y in {first, last, (first + 1) if first else None, (last - 1) if last else None} - {None}:
+                inc = [e for e in eds if (e[1] is None or e[1] <= y) and (e[2] is None or y <= e[2])]
+                if [e[0] for e in inc] != [en] or not (1600 <= y <= gen.YEARNOW) or not plain_shape_only(en) or en == v:
+                    continue
+                other = next((e[0] for e in eds if e[0] != en and plain_shape_only(e[0]) and e[0] != v), None)
+                texts = [f"Alphaxo v. Betaxo, 3 {v} 45 ({y}).", f"Gammaxo v. Deltaxo, 3 {en} 45 ({y})."] + (
+                    [f"Epsilonxo v. Zetaxo, 3 {other} 45."] if other else [])
+                seq = []
+                for t in texts:
+                    try:
+                        got = [c for c in get_citations(t) if isinstance(c, FullCaseCitation)]
+                    except Exception:
+                        got = []
+                    if len(got) != 1 or got[0].matched_text() not in t:
+                        seq = None
+                        break
+                    seq.append(got[0])
+                if not seq:
+                    rec.count("dated_pair_not_extracted_as_written")
+                    continue
+                case = dict(dated_texts=texts, variation=v, edition=en, year=y)
+                try:
+                    res = resolve(seq)
+                except Exception as e:
+                    rec.violation("C06.no_mapping", case, observed=str(e)[:200])
+                    continue
+                rec.ev()
+                rec.count("dated_pairs")
+                rec.nontrivial(texts)
+                grp = R.groups_of(res)
+                g = [grp.get(id(c), [None])[0] for c in seq]
+                if not (g[0] is not None and g[1] is not None and g[0] == g[1]):
+                    rec.violation("C06.dated_variation_not_with_its_edition", case, observed=[repr(x)[:80] for x in g[:2]])
+                if other and g[2] is not None and (g[2] == g[1] or g[2] == g[0]):
+                    rec.violation("C06.dated_variation_with_other_edition", case, observed=[repr(x)[:80] for x in g])
 
 
 def replay(w, rec):
